@@ -73,9 +73,10 @@ def exactConst (unsc : Col α) : Bool :=
     returns the failing sub-clause if any -/
 def standardisedCol (sqT : α → α) (tol : Tol α) (mag : α) (truth mat unsc : Col α) (loc scale : Option α) :
     Option String :=
-  -- a trait without any value: the NaN-ignoring mean and deviation of nothing are NaN
+  -- a trait without any value: the NaN-ignoring mean of nothing is NaN and every stored value is NaN; the
+  -- scale is NaN (numpy's deviation of nothing) or the unit scale (nothing to scale) — the statement fixes neither
   if (present truth).isEmpty then
-    (if loc == none && scale == none && mat == truth then none else some "standardised")
+    (if loc == none && (scale == none || scale == some 1) && mat == truth then none else some "standardised")
   else if mat.map Option.isNone != truth.map Option.isNone then some "standardised"
   else if !(closeO tol mag loc (some (meanL (present truth)))) then some "standardised"
   else if varL (present truth) = 0 then
@@ -171,6 +172,48 @@ def specCol (sqT : α → α) (tol : Tol α) (mag : α) (withStats : Bool) (trut
    | none => []
    | some name => [name]) ++
   (if withStats then statsCol sqT tol mag truth o else [])
+
+/-- `argOk` against the object's own unscaled column: numpy reports the first NaN of the STORED column,
+    which in a state with a NaN scale (a trait that had no value when location and scale were computed)
+    need not be the first NaN of `unscale()`; any position that is NaN in `unscale()` is accepted -/
+def argOkOwn (tol : Tol α) (mag : α) (ext : List α → α) (own : Col α) (obs : Option Nat) : Bool :=
+  argOk tol mag ext own obs ||
+    (match obs with
+     | some i => own[i]? == some none
+     | none => false)
+
+/-- the statistics clauses that hold in ANY state of the object — location and scale possibly stale after
+    an inherited in-place routine, or re-assigned by the caller — against the object's OWN unscaled column
+    `own = unscale()`: all of `statsCol` except the mean (`tmean(unscale=True)` returns the stored location;
+    finding D25 when it is stale) -/
+def statsAnyCol (sqT : α → α) (tol : Tol α) (mag : α) (own : Col α) (o : ObsCol α) : List String :=
+  (if statOk tol mag listMax own o.tmax then [] else ["self:stat:tmax"]) ++
+  (if statOk tol mag listMin own o.tmin then [] else ["self:stat:tmin"]) ++
+  (if statOk tol mag (fun l => listMax l - listMin l) own o.trange then [] else ["self:stat:trange"]) ++
+  (if argOkOwn tol mag listMax own o.targmax then [] else ["self:stat:targmax"]) ++
+  (if argOkOwn tol mag listMin own o.targmin then [] else ["self:stat:targmin"]) ++
+  (if stdOk sqT tol mag own o.tstd then [] else ["self:stat:tstd"]) ++
+  (if varOk sqT tol mag own o.tvar then [] else ["self:stat:tvar"])
+
+/-- `unscale()` is `scale * mat + location` of the attributes the object shows -/
+def formulaOk (tol : Tol α) (mag : α) (o : ObsCol α) : Bool :=
+  rawOk tol mag (unscaleCol { mat := o.mat, loc := o.loc, scale := o.scale }) o.unscale
+
+/-- the clauses of one trait that hold in any state: the unscaling formula, and `statsAnyCol` when the trait
+    has a location and a scale (with a NaN location or scale `unscale()` is NaN throughout while the
+    statistics are computed from the stored column: nothing to compare) -/
+def anyStateCol (sqT : α → α) (tol : Tol α) (mag : α) (withStats : Bool) (o : ObsCol α) : List String :=
+  (if formulaOk tol mag o then [] else ["formula"]) ++
+  (if withStats && o.loc.isSome && o.scale.isSome then statsAnyCol sqT tol mag o.unscale o else [])
+
+/-- the mean clause against the object's own unscaled column (fails in a stale state: D25) -/
+def selfMeanCol (tol : Tol α) (mag : α) (o : ObsCol α) : List String :=
+  if statOk tol mag meanL o.unscale o.tmean then [] else ["self:stat:tmean"]
+
+/-- entrywise agreement at the positions where `mask` is true ("every RETAINED taxon") -/
+def rawOkMask (tol : Tol α) (mag : α) (mask : List Bool) (truth obs : Col α) : Bool :=
+  truth.length == obs.length && mask.length == obs.length &&
+    (List.zip mask (List.zip truth obs)).all (fun p => !p.1 || closeO tol mag p.2.1 p.2.2)
 
 /-- what the MODEL shows for one trait -/
 def modelObs (sq : α → α) (t : Trait α) : ObsCol α :=
